@@ -23,9 +23,9 @@ PLANS = {
 }
 
 RULES = {
-    "C05": "metamorphic + histories: base grammars of profile 'memo' (shared prefixes, rules reached at one offset through several contexts, lookaheads calling rules, pure checks/externs) compiled in 4 variants (no rule / every rule / two random subsets of rules marked @memoize); for every generated input all variants must return the same ok flag and Debug tree and agree with the reference interpreter; plus generated histories (3-16 inputs, every second one an equal-length variant of its predecessor, re-parsed in a generated order with repetitions) on the all-memoized variant: every result equals the first-time result. Non-trivial = the oracle sees a memoized (rule, offset) evaluated >= 2 times in that parse (a cache hit must have happened), or a history with equal-length inputs; distinct (grammar group, rule, input) / distinct history.",
+    "C05": "metamorphic + histories: base grammars of profile 'memo' (shared-prefix alternatives, nullable rules, rules reached at one offset through several contexts, lookaheads calling rules, failing checks, externs) and, for half of the groups, profile 'memows' (skipping and non-skipping 'twin' callers of one offset-sensitive callee, heavy whitespace injection), each compiled in 4 variants (no rule / every rule / two random subsets of rules marked @memoize); for every generated input all variants must return the same ok flag and Debug tree and agree with the reference interpreter; plus generated histories (3-16 inputs, every second one an equal-length variant of its predecessor, re-parsed in a generated order with repetitions) on the all-memoized variant: every result equals the first-time result. Non-trivial = the oracle sees a memoized (rule, offset) evaluated >= 2 times in that parse (a cache hit must have happened), or a history with equal-length inputs; distinct (grammar group, rule, input) / distinct history.",
     "C06": "grammars of profile 'memo' with a zero-width @extern probe at the start of each memoized rule's body (half of the grammars: every rule memoized); observation: probe call log (name, remaining input) and recorded rule entries; oracle: packrat model = reference interpreter answering revisits of memoized (rule, offset) from a table. Checks: every user function call and every rule entry occurs at most as often as in the packrat model (successful and failing evaluations alike); all-memoized grammars: probe calls <= rules x (len + 1). Non-trivial = the plain PEG evaluation attempts some memoized (rule, offset) >= 2 times and the first attempt fails; distinct (grammar, rule, input).",
-    "C07": "structured left-recursive grammars: direct struct style (recursive alternatives first / not first), enum-override style through non-memoized rules, two-level Expr/Term, exotic (recursive reference under lookahead / optional / through a nullable prefix), various callers ([E], {E ';'}, &E, shared-prefix alternatives), @position/@memoize/@no_skip_ws mixes; oracles: (1) interpreter implementing seed-and-grow literally, (2) constructive oracle for `E = l:*E op r:Atom | ... | a:Atom`: input b x1..xn built from the operator list, expected tree folded left directly; termination by tracer fuel / nesting depth. Non-trivial = >= 2 growth steps, or a failing parse that entered the growth loop; distinct (grammar, rule, input).",
+    "C07": "structured left-recursive grammars: direct struct style (recursive alternatives first / not first), enum-override style through non-memoized rules, two-level Expr/Term, exotic (recursive reference under lookahead / optional / through a nullable prefix), seeds that match the empty string, one-token growth steps, various callers ([E], {E ';'}, &E, shared-prefix alternatives), @position/@memoize/@no_skip_ws mixes; oracles: (1) interpreter implementing seed-and-grow literally, (2) constructive oracle for `E = l:*E op r:Atom | ... | a:Atom`: input b x1..xn built from the operator list, expected tree folded left directly; termination by tracer fuel / nesting depth. Non-trivial = >= 2 growth steps, or a failing parse that entered the growth loop; distinct (grammar, rule, input).",
     "C13": "pairs (G, G') where G uses `>Rule` at random depths (inside [], {}, choices, other included bodies; skipping and non-skipping includers; included rules carrying @no_skip_ws/@memoize/@position/@check/@string) and G' is the model with every include replaced by the parenthesised body; compared: public type declarations (text before the private module, byte-equal), and for every input ok flag, Debug tree (positions included) and error position; G is also compared with the interpreter. Non-trivial = the included body was entered on that input inside a choice arm / optional / closure; distinct (grammar pair, rule, input).",
     "C20": "histories: for each grammar (profile 'memo' + left-recursive shapes) generated lists of inputs are parsed, then re-parsed in a generated order with repetitions, each result must equal its first-time result; schedules: generated rounds of 2-4 (grammar, rule) pairs x 8-40 inputs (every third an equal-length variant of its neighbour) are parsed sequentially (reference) and then by 2-16 threads under a generated assignment, barrier start, every item twice; all results must equal the reference. Interleavings are not controlled (stated limit). Non-trivial = history with equal-length inputs / concurrent round with >= 2 threads and equal-length inputs; distinct histories / rounds.",
     "C01": "grammars: generator profile 'core' (all operators, literals incl. escapes / case-insensitive, ranges, char, @char classes, $, skipping and non-skipping rules), every rule reachable through an @export @position wrapper; inputs: grammar-directed derivations, mutations of them, alphabet strings (<= max_len bytes); oracle: reference PEG interpreter (accept/reject + consumed bytes), termination by tracer fuel. Non-trivial = the oracle's evaluation had a backtrack after partial consumption, a closure stopped on a partial iteration, a lookahead, a range end-point hit or a case-folded insensitive match; distinct = distinct (grammar, rule, input).",
